@@ -188,9 +188,12 @@ def convert(ops, wires, variant):
 
 
 def strip_corrections(tape):
-    """the converted tape without its online byproduct corrections (conditional X / Z)"""
+    """the pattern that is executed when the byproducts are tracked offline: the converted tape without its online
+    byproduct corrections (conditional X / Z) and without the Pauli gates of the circuit - _get_xz_record merges the
+    Pauli gates of the tape into the recorded frame ("commutate step is skipped"), i.e. they are tracked, not executed"""
     ops = [op for op in tape.operations
-           if not (isinstance(op, Conditional) and op.base.name in ("PauliX", "PauliZ"))]
+           if not (isinstance(op, Conditional) and op.base.name in ("PauliX", "PauliZ"))
+           and op.name not in ("PauliX", "PauliY", "PauliZ")]
     return tape.copy(operations=ops)
 
 
@@ -212,9 +215,12 @@ def conversion_plan(tier, rng):
         plan.append(([x for x in (pre, g, post) if x], [0], rng.choice(["plain", "diag", "dmcm"]), True, 0))
     # two gates: the first gate prepares a generic input state for the second (256 branches each)
     pool = [g_h, g_s, lambda: g_rz(rng.choice(ang)), lambda: g_xzx(rng.choice(ang), rng.choice(ang), rng.choice(ang))]
+    # a generic XZX rotation first, so that every correction of the second gate matters (an X correction is invisible on |+>)
+    for k, g2 in enumerate([g_h(), g_s(), g_rz(rng.choice(ang)), g_xzx(rng.choice(ang), rng.choice(ang), rng.choice(ang))]):
+        plan.append(([g_xzx(1, 2, 3) if k % 2 == 0 else g_xzx(3, 1, 2), g2], [0], ("plain", "diag", "dmcm", "plain")[k], True, 0))
     pairs = list(itertools.product(range(4), repeat=2))
     rng.shuffle(pairs)
-    for (i, j) in pairs[:5 if q else 16]:
+    for (i, j) in pairs[:2 if q else 16]:
         plan.append(([pool[i](), pool[j]()], [0], rng.choice(["plain", "diag", "dmcm"]), True, 0))
     # three gates: sampled histories (4096 branches)
     for _ in range(3 if q else 12):
@@ -227,7 +233,9 @@ def conversion_plan(tier, rng):
            [g_h(1), g_cnot(0, 1), g_s(0)],
            [g_xzx(1, 2, 3, 0), g_rz(3, 1), g_cnot(1, 0), g_h(1)],
            [g_h(0), g_s(0), g_h(1), g_cnot(0, 1), g_cnot(1, 0)],
-           [g_xzx(3, 1, 2, 1), g_cnot(0, 1), g_p("Z", 0), g_h(0)]]
+           [g_xzx(3, 1, 2, 1), g_cnot(0, 1), g_p("Z", 0), g_h(0)],
+           [g_xzx(1, 2, 3, 0), g_xzx(3, 1, 2, 1), g_cnot(0, 1)],
+           [g_xzx(2, 3, 1, 0), g_xzx(1, 1, 2, 1), g_cnot(1, 0)]]
     for c in two:
         plan.append((c, [0, 1], rng.choice(["plain", "diag", "dmcm"]), True, 5 if q else 40))
     return plan
@@ -310,7 +318,7 @@ def run_conversion(tier, rng, viol, cov):
     neg = []
     for k in range(nreal):
         m = meta[k]
-        if m["kind"] == "all-branches" and len(neg) < 6:
+        if m["kind"] == "all-branches" and len(neg) < 6 and m["circuit"].startswith(("RotXZX(1,2,3)", "RotXZX(3,1,5)")):
             c = cases[k]
             idx = [i for i, ins in enumerate(c["ops"]) if ins.get("g") == "COND" and ins["op"]["g"] in ("PauliX", "PauliZ")]
             if idx:
